@@ -122,6 +122,7 @@ class Cfg:
         p = []
         for k, v in self.d.items():
             if k == 'wifi': p.append('wifi=%s' % ('none' if v is None else v))
+            elif k == 'phy': p.append('phy=%s' % ('none' if v is None else v))
             elif isinstance(v, (bytes, bytearray)): p.append('%s=%s' % (k, v.hex() if v else '-'))
             else: p.append('%s=%d' % (k, v))
         return 'cfg %d %s' % (self.ctx, ' '.join(p))
@@ -132,7 +133,7 @@ def gline(host=b'', icon=None, fname=None, hwid=b'', retfull=0):
     return 'cfg g host=%s icon=%s fname=%s hwid=%s retfull=%d' % (host.hex() or '-', 'none' if icon is None else (icon.hex() or '-'),
                                                                   'none' if fname is None else (fname.hex() or '-'), hwid.hex() or '-', retfull)
 
-MTUS = [576, 577, 1500, 1500, 1500, 9216, 1492, 2000]
+MTUS = [576, 577, 1500, 1500, 1500, 9216, 1492, 2000, 592, 593, 1493, 590, 591]   # incl. every boundary residue of (MTU-34) mod 20 and mod 14
 def rand_cfg(rng, ctx=0, mtu=None, wifi=None):
     m = mtu if mtu is not None else rng.choice(MTUS + [rng.randrange(576, 9217)])
     kw = dict(mtu=m, flags=rng.choice([0, 0x2000, 0x800, 0x2800, 0xFFFF, 1, rng.randrange(65536)]),
@@ -145,6 +146,7 @@ def rand_cfg(rng, ctx=0, mtu=None, wifi=None):
         kw.update(wifi=rng.choice([0, 1, 2, 255]), bssid=bytes(rng.randrange(256) for _ in range(6)),
                   ssid=bytes(rng.randrange(1, 256) for _ in range(rng.choice([0, 1, 5, 31, 32, 33, 40]))),
                   rate=rng.choice([0, 1, 108, 0xFFFF, 0x0100, rng.randrange(65536)]), rssi=rng.choice([-128, -127, -70, -1, 0, 1, 127]))
+        if rng.random() < 0.5: kw['phy'] = rng.choice([1, 2, 7, 0xFFFFFFFF])
     for f in ('iftypefail', 'ipv4fail', 'ipv6fail', 'speedfail', 'bssidfail', 'ratefail', 'rssifail'):
         if rng.random() < 0.06: kw[f] = 1
     return Cfg(ctx, **kw)
